@@ -5,6 +5,9 @@ from common import (atomic_op, calls_to, callee, closure_creations, closure_cons
                     field_reads, is_diverging, ret_aggregates, bool_param, is_arg)
 
 
+from common import closure_tree, iter_pipeline
+
+
 def worker_param(fn, base):
     """Is `base` the (non-self) parameter of this body that refers to the Worker? (by type, not by name)"""
     return isinstance(base, tuple) and base[0] == "arg" and base[1] >= 2 and "Worker<" in fn.b["locals"][base[1]]["ty"]
@@ -378,7 +381,18 @@ def rule_status_lattice(ctx):
         ctx.fail_closed("Ord for pattern::Status is not derived: cannot read the order off the declaration")
     # status() = max over columns
     sf = get_fn(facts, "nucleo", "pattern::MultiPattern::status")
-    if any(callee(t).endswith("::max") for bi, t in sf.calls()):
+    tree = closure_tree(facts, "nucleo", "pattern::MultiPattern::status")
+    has_max = any(callee(t).endswith("::max") for f_ in tree for bi, t in f_.calls())
+    folds = [(bi, t) for bi, t in sf.calls(lambda t: str(t.get("fn")).endswith("Iterator::fold"))]
+    fold_ok = True
+    for bi, t in folds:
+        init = peel(sf.expr_of_operand(t["args"][1]))
+        # the fold must start from the least element, otherwise an all-lower list reports too much / too little
+        least = (init[0] == "agg" and str(init[1]).endswith("Status::" + order[0])) or (init[0] == "const" and init[1] == order[0])
+        stages = iter_pipeline(sf, t)
+        if not least or any(st[0].startswith(("truncating:", "unknown:", "subset:")) for st in stages[1:]):
+            fold_ok = False
+    if has_max and fold_ok:
         ctx.ok(site(sf, 0), "status() is the maximum over the columns")
     else:
         ctx.violation("pattern::MultiPattern::status|max|1", site(sf, 0), "status() is not the maximum of the column statuses")
